@@ -346,6 +346,12 @@ int main(int argc, char **argv)
       enum_prefix(i, 5);
       chunkmode = (i / nparts) & 1;
     }
+    /* the two exact keywords: one (thorough: two) more suffix position, split over the parts by first symbol */
+    if (part < NAL) for (i = 0; i < 2; i++) {
+      unsigned char p[8]; int b = npref;
+      memcpy(p, i ? "todo/" : "foop/", 5); p[5] = AL[part];
+      add_prefix(p, 6); enum_prefix(b, thorough ? 6 : 5); npref = b;
+    }
     nqv_counter("prefixes", npref);
   } else if (!strcmp(argv[1], "digits")) {
     digits_workload(); run_stream();
